@@ -503,7 +503,7 @@ func checkC15(a *checkArgs, r *Result) error {
 	defer dp.Close()
 	r.Rule = "generated invocations of the unmodified gxz binary: directory states (names with spaces, leading dashes, names that parse as booleans/integers, known/unknown suffixes, .txz/.tlz, pre-existing targets, several permission modes, plain / xz / lzma / corrupt contents) x argument vectors (flag subsets and orders, bundled shorts, long options with and without '=', '--', options between operands, presets, -F values, unknown options, missing files, multi-file invocations with failing members); compared with the Lean model (GFlag.parse + plan): exit status and resulting file names, contents validated by decoding, gxz's xz output judged by the Lean strict decoder, permission bits; plus compress/decompress round trips over both formats and presets 0-9, and an oracle for the documented command-line syntax that is independent of the flag parser. Non-trivial: >= 2 arguments; distinct by (argv, directory)."
 	rng := rand.New(rand.NewSource(a.seed))
-	n := 700
+	n := 2000
 	if a.tier == "thorough" {
 		n = 8000
 	}
